@@ -9,6 +9,7 @@ import (
 	"0chain.net/smartcontract/stakepool/spenum"
 	"verif/lib/chainsim"
 	"verif/lib/ev"
+	"verif/lib/mon"
 )
 
 func init() {
@@ -19,6 +20,7 @@ func init() {
 	checks["C24"] = c24
 	checks["C09"] = c09
 	checks["C02"] = c02
+	checks["C04"] = c04
 }
 
 const late = TU + 1 // a time step that carries every allocation of the scenario past its expiry
@@ -29,7 +31,7 @@ func (s *scen) roots() map[string][]chainsim.Action {
 	f := append(s.rootBase(), s.addAssigner("scowner", 0, 4, 7, 0), s.addAssigner("scowner", 1, 3.5, 3.5, 0))
 	awc := append(s.rootAW(), s.genChallenge(0))
 	awk := append(s.rootAW(), s.kill("scowner", "b0"))
-	return map[string][]chainsim.Action{"TD": s.rootTD(), "base": s.rootBase(), "A": s.rootA(), "AW": s.rootAW(), "AWC": awc, "AWK": awk, "AB": ab, "F": f}
+	return map[string][]chainsim.Action{"AWP": s.rootAWP(), "TD": s.rootTD(), "base": s.rootBase(), "A": s.rootA(), "AW": s.rootAW(), "AWC": awc, "AWK": awk, "AB": ab, "F": f}
 }
 
 // fullAlphabet is the union of every action used by some check (the probe command picks from it).
@@ -183,6 +185,9 @@ func (s *scen) readAlphabet(wide bool) []chainsim.Action {
 		s.readRedeem("B", 1, "c0", 2, "", 0),
 		s.readRedeem("A", 1, "c0", 3, "c1", 2),
 		s.readRedeem("A", 1, "c0", 3, "key:c1", 2),
+		s.readReuse("A", 1, "c0", 2, ""),
+		s.readReuse("A", 1, "c0", 1, "ts"),
+		s.readReuse("A", 1, "c0", 2, "b0"),
 		s.readRedeem("A", 1, "c1", 2, "", 0),
 		s.readPoolLock("c0", 1e6, 0),
 		s.readPoolUnlock("c0", 0),
@@ -192,6 +197,7 @@ func (s *scen) readAlphabet(wide bool) []chainsim.Action {
 			s.readRedeem("A", 1, "c0", 5000, "", 2),
 			s.readRedeem("A", 3, "c0", 1, "", 2),
 			s.readRedeem("B", 1, "c1", 1, "", 0),
+			s.readReuse("B", 1, "c0", 1, ""),
 			s.readPoolUnlock("c1", 0),
 			s.cancel("A", "c0", 0, 0),
 		)
@@ -333,8 +339,12 @@ func c12(run *ev.Run, variant string) {
 		s.explore(run, s.dryAlphabet(run.Thorough()), pick(run, r, "TD"), 3, 4, s.cpMonitor)
 		return
 	}
-	run.Rule = "BFS over all sequences up to the depth bound of write markers (+/-), challenge generation and responses (pass/fail/partial/late), extend, resize, add/replace blobber (alive and killed), settings change, kill, cancel, finalize on allocation A from root states {A fresh, A with data, A with data and an open challenge}; after every transition, for EVERY allocation node: challenge pool balance == sum of ChallengePoolIntegralValue, and no challenge pool without its allocation"
-	s.explore(run, s.lifeAlphabet(run.Pick(0, 1)), pick(run, r, "AW", "AWC", "A"), 3, 4, s.cpMonitor)
+	run.Rule = "BFS over all sequences up to the depth bound of write markers (+/-), challenge generation and responses (pass/fail/partial/late), extend, resize, add/replace blobber (alive and killed), settings change, kill, cancel, finalize on allocation A from root states {A with data, A with data and an open challenge, A with data after every data-holding blobber lowered its write price (extension then moves tokens out of the challenge pool); thorough tier also A fresh}; after every transition, for EVERY allocation node: challenge pool balance == sum of ChallengePoolIntegralValue, and no challenge pool without its allocation"
+	if run.Thorough() {
+		s.explore(run, s.lifeAlphabet(1), pick(run, r, "AW", "AWC", "AWP", "A"), 3, 4, s.cpMonitor)
+		return
+	}
+	s.explore(run, s.lifeAlphabet(0), pick(run, r, "AW", "AWC", "AWP"), 3, 4, s.cpMonitor)
 }
 
 func c13(run *ev.Run, variant string) {
@@ -354,15 +364,15 @@ func c14(run *ev.Run, variant string) {
 func c15(run *ev.Run, variant string) {
 	s := newScen(0.1)
 	r := s.roots()
-	run.Rule = "BFS over sequences of read markers with counters 1,2,3 (and 5000) for 2 clients x 2 blobbers x 2 allocations, replayed and reordered, foreign-signed, for a blobber outside the allocation, interleaved with read-pool lock/unlock; reference = last redeemed counter per (blobber, client, allocation): debit == floor(read price * newly read blocks / 16384), replay/older charges nothing, stored counters never decrease, forged markers are rejected"
-	s.explore(run, s.readAlphabet(run.Thorough()), pick(run, r, "AB"), 4, 4, s.readMonitor)
+	run.Rule = "BFS over sequences of read markers with counters 1,2,3 (and 5000) for 2 clients x 2 blobbers x 2 allocations, replayed and reordered, foreign-signed, carrying the client's id with a foreign key, forged with the REUSED signature of the previously redeemed marker (same blobber with and without a new timestamp, and the marker redeemed at another blobber) and a higher counter, for a blobber outside the allocation, interleaved with read-pool lock/unlock; reference = last redeemed counter per (blobber, client, allocation): debit == floor(read price * newly read blocks / 16384), replay/older charges nothing, stored counters never decrease, forged markers are rejected"
+	s.explore(run, s.readAlphabet(run.Thorough()), pick(run, r, "AB"), 3, 4, s.readMonitor)
 }
 
 func c24(run *ev.Run, variant string) {
 	s := newScen(0.1)
 	r := s.roots()
 	run.Rule = "BFS over sequences of free-storage markers of 2 assigners (valid, replayed nonce, over individual limit, cumulative over total limit, forged, signed by the other assigner, submitted by a non-recipient); oracle on every grant: submitter == recipient, signature verifies under the registered assigner key, nonce unused, amount <= individual limit, redeemed total <= total limit and raised by exactly the grant, exactly one allocation owned by the recipient; assigner totals and the owner wallet change only through grants"
-	s.explore(run, s.freeAlphabet(run.Thorough()), pick(run, r, "F"), 4, 5, s.freeMonitor)
+	s.explore(run, s.tracked(s.freeAlphabet(run.Thorough())), pick(run, r, "F"), 4, 5, s.freeMonitor)
 }
 
 // c09: the liabilities oracle on every transition of the explorations above; one part per
@@ -385,7 +395,11 @@ func c09(run *ev.Run, variant string) {
 			}
 		}
 		acts = append(acts, s.collect("c2", spenum.Blobber, "b1"), s.unstake("c2", spenum.Blobber, "b3", 0))
-		s.explore(run, acts, pick(run, r, "AW", "AWC", "AWK"), 2, 3, s.liabMonitor)
+		if run.Thorough() {
+			s.explore(run, acts, pick(run, r, "AW", "AWC", "AWK", "AWP"), 2, 3, s.liabMonitor)
+		} else {
+			s.explore(run, acts, pick(run, r, "AW", "AWK", "AWP"), 2, 3, s.liabMonitor)
+		}
 	case "dry":
 		s.explore(run, s.dryAlphabet(run.Thorough()), pick(run, r, "TD"), 3, 4, s.liabMonitor)
 	case "read":
@@ -395,6 +409,16 @@ func c09(run *ev.Run, variant string) {
 	default:
 		ev.Fatal("unknown C09 variant %q", variant)
 	}
+}
+
+// c04 (part storage-free): the debit-authorisation oracle of lib/mon over the free-storage
+// alphabet, with the free-storage rule supplied by freeStorageDebitOK.
+func c04(run *ev.Run, variant string) {
+	s := newScen(0.1)
+	r := s.roots()
+	mon.FreeStorageDebitOK = s.freeStorageDebitOK
+	run.Rule = "storage contract, free storage: BFS over sequences of free-storage markers of 2 assigners (valid, replayed, over-limit, forged, wrong recipient) and assigner registrations; oracle per transition: an account that loses tokens is the sender (<= value+fee), the called contract, the source of a validly signed transfer, or the configured storage owner wallet under a free_allocation_request whose marker is validly signed by a registered assigner, names the submitter, and whose (assigner, nonce) was not accepted earlier along the path (the path record is kept by the harness from the owner wallet's debits, not read from the contract)"
+	s.explore(run, s.tracked(s.freeAlphabet(run.Thorough())), pick(run, r, "F"), 4, 5, mon.DebitMonitor(s.w))
 }
 
 func c02(run *ev.Run, variant string) {
